@@ -10,7 +10,8 @@ Local Open Scope Z_scope.
 Inductive exn :=
 | ProphyError       (* prophy.ProphyError *)
 | StructError       (* struct.error out of struct.pack *)
-| Stuck.            (* model only: a value tree no Python object can have *)
+| Stuck             (* model only: a value tree no Python object can have *)
+| OutOfFuel.        (* model only: a loop of the code ran longer than the fuel given *)
 
 Inductive res (A : Type) := Ok (a : A) | Err (e : exn).
 Arguments Ok {A} a.
@@ -144,7 +145,7 @@ Fixpoint py_enc (e : endian) (t : ty) (v : value) {struct t} : res bytes :=
 
 (* flattening for the harness: [0; bytes...] on success, [1 + exception number] otherwise *)
 Definition exn_code (x : exn) : Z :=
-  match x with ProphyError => 1 | StructError => 2 | Stuck => 3 end.
+  match x with ProphyError => 1 | StructError => 2 | Stuck => 3 | OutOfFuel => 4 end.
 
 Definition res_bytes_flat (r : res bytes) : list Z :=
   match r with Ok b => 0 :: b | Err x => [exn_code x] end.
